@@ -68,6 +68,7 @@ func goEnv() []string {
 type built struct {
 	dir   string
 	seq32 string // worker built for GOARCH=386 (properties with Arch386)
+	seqv3 string // worker built with GOAMD64=v3 (properties with AMD64v3)
 	seqw  string
 	sched string
 	race  string
@@ -137,6 +138,12 @@ func plainOverlay(b *built, mut string) (string, error) {
 func buildSeq32(b *built) error {
 	b.seq32 = filepath.Join(b.dir, "seqw386")
 	return buildSeqTo(b, b.seq32, "./cmd/seqw386", "GOARCH=386", "CGO_ENABLED=0")
+}
+
+// buildSeqV3 builds the worker for the checks that run in a GOAMD64=v3 build.
+func buildSeqV3(b *built) error {
+	b.seqv3 = filepath.Join(b.dir, "seqwv3")
+	return buildSeqTo(b, b.seqv3, "./cmd/seqwv3", "GOAMD64=v3")
 }
 
 func buildSeq(b *built) error {
@@ -351,6 +358,18 @@ func cmdRun(args []string) int {
 		}
 		for _, id := range ids {
 			jobsList = append(jobsList, unitJob{b.seq32, id})
+		}
+	}
+	if spec.AMD64v3 && cpuHasAVX2() {
+		if err := buildSeqV3(b); err != nil {
+			return engineError("%v", err)
+		}
+		ids, err := listUnits(b.seqv3, prop, *tier)
+		if err != nil {
+			return engineError("%v", err)
+		}
+		for _, id := range ids {
+			jobsList = append(jobsList, unitJob{b.seqv3, id})
 		}
 	}
 	if spec.Sched {
@@ -614,6 +633,9 @@ func workerFor(b *built, unit string, spec propSpec) string {
 	if len(segs) >= 2 && segs[1] == "arch386" && b.seq32 != "" {
 		return b.seq32
 	}
+	if len(segs) >= 2 && segs[1] == "amd64v3" && b.seqv3 != "" {
+		return b.seqv3
+	}
 	if len(segs) >= 2 {
 		if strings.HasSuffix(segs[0], "R") && b.race != "" {
 			return b.race
@@ -687,6 +709,11 @@ func cmdReplay(args []string) int {
 			return engineError("%v", err)
 		}
 		w = b.seq32
+	case strings.SplitN(v.Unit, "/", 3)[1] == "amd64v3":
+		if err := buildSeqV3(b); err != nil {
+			return engineError("%v", err)
+		}
+		w = b.seqv3
 	case isRace:
 		if err := buildSched(b, true); err != nil {
 			return engineError("%v", err)
@@ -731,6 +758,11 @@ func cmdSetup() int {
 	if err := buildSeq32(b); err != nil {
 		return engineError("%v", err)
 	}
+	if cpuHasAVX2() {
+		if err := buildSeqV3(b); err != nil {
+			return engineError("%v", err)
+		}
+	}
 	if schedAvailable {
 		if err := buildSched(b, false); err != nil {
 			return engineError("%v", err)
@@ -741,4 +773,19 @@ func cmdSetup() int {
 	}
 	fmt.Println("setup ok")
 	return 0
+}
+
+// cpuHasAVX2: a GOAMD64=v3 binary only runs on a CPU of that level; on an older machine
+// the amd64v3 part is left out (and reported as a bound in the evidence).
+func cpuHasAVX2() bool {
+	data, err := os.ReadFile("/proc/cpuinfo")
+	if err != nil {
+		return false
+	}
+	for _, f := range []string{" avx2", " bmi2", " fma", " movbe"} {
+		if !strings.Contains(string(data), f) {
+			return false
+		}
+	}
+	return runtime.GOARCH == "amd64"
 }
